@@ -506,17 +506,29 @@ pub fn exec_case(cfg: &RCfg, ops: &[Op], deadline_ms: u64, short_ms: u64) -> Vec
     let mut rb = RBuild { shared: shared.clone(), rdv: rdv.clone(), built: empty_built() };
     let (mut tagpath, mut ns) = (BTreeMap::new(), BTreeMap::new());
     paths(ops, &[], &mut tagpath, &mut ns);
-    // the plan: hooks + one sequential identification run on a `build()` dispatcher
-    let (b, user) = rb.builder(ops, cfg);
-    let mut d = b.build();
-    out.push(format!("maxthreads {}", d.max_threads()));
-    let lay = match identify(&mut d, &shared, &rb.built) {
-        Ok(l) => l,
+    // the plan: hooks + one sequential identification run on a `build()` dispatcher — built, used and
+    // dropped on a helper thread, so that the dispatcher the experiment runs on is the first one the
+    // experiment's own thread ever builds (what `build` does may depend on the building thread)
+    let ident: Result<(usize, Layout), String> = std::thread::scope(|sc| {
+        sc.spawn(|| {
+            let mut rb0 = RBuild { shared: shared.clone(), rdv: rdv.clone(), built: empty_built() };
+            let (b0, _user0) = rb0.builder(ops, cfg);
+            let mut d0 = b0.build();
+            let mt = d0.max_threads();
+            identify(&mut d0, &shared, &rb0.built).map(|l| (mt, l))
+        })
+        .join()
+        .unwrap_or_else(|_| Err("the identification run panicked".into()))
+    });
+    let (mt0, lay) = match ident {
+        Ok(x) => x,
         Err(e) => {
             out.push(format!("error identification: {}", e));
             return out;
         }
     };
+    out.push(format!("maxthreads {}", mt0));
+    let (b, user) = rb.builder(ops, cfg);
     layout_lines(&lay, None, &mut out);
     let mut tg = vec![];
     targets(&lay, None, cfg.reps * cfg.dispatches(), &ns, &mut tg);
@@ -525,15 +537,11 @@ pub fn exec_case(cfg: &RCfg, ops: &[Op], deadline_ms: u64, short_ms: u64) -> Vec
     let foreign = if cfg.caller == "foreign" { Some(make_pool(1)) } else { None };
     let mut user = user;
     let mut runner = if cfg.exec == "async" {
-        drop(d);
-        // same registrations, same configuration, built with `build_async`
-        let (b2, user2) = rb.builder(ops, cfg);
-        user = user2;
-        Runner::Async(b2.build_async(full_world()))
+        Runner::Async(b.build_async(full_world()))
     } else if cfg.caller == "main" || has_tl {
-        Runner::Sync(d)
+        Runner::Sync(b.build())
     } else {
-        match d.try_into_sendable() {
+        match b.build().try_into_sendable() {
             Ok(sd) => Runner::Send(sd),
             Err(d) => Runner::Sync(d),
         }
